@@ -2,9 +2,11 @@ package mon
 
 import (
 	"bytes"
+	"compress/gzip"
 	"encoding/xml"
 	"fmt"
 	"image"
+	"io"
 	"math"
 	"os"
 	"regexp"
@@ -384,7 +386,19 @@ type c12Case struct {
 	Draws   []c12Draw
 	PDFComp bool
 	EPS     bool
-	Kind    string
+	// SVG back-end options: gzip level (0 = none) and the unit of the width/height attributes
+	SVGComp  int    `json:",omitempty"`
+	SVGUnits string `json:",omitempty"`
+	Kind     string
+}
+
+func c12SVGOptions(c *c12Case, r *core.Rng) {
+	if r.Chance(0.3) {
+		c.SVGComp = core.PickI(r, []int{1, 6, 9, -1, 42})
+	}
+	if r.Chance(0.3) {
+		c.SVGUnits = core.PickS(r, []string{"px", "pt", "cm", "in"})
+	}
 }
 
 var c12Joins = []canvas.Joiner{canvas.MiterJoin, canvas.BevelJoin, canvas.RoundJoin, canvas.ArcsJoin, canvas.MiterClipJoin, canvas.MiterJoiner{GapJoiner: canvas.BevelJoin, Limit: 2}}
@@ -445,6 +459,7 @@ func genC12State(r *core.Rng) any {
 			cc.Draws = append(cc.Draws, d.c14Draw)
 		}
 		if !c14CrossesTopLeft(cc) {
+			c12SVGOptions(c, r)
 			return c
 		}
 	}
@@ -526,6 +541,7 @@ func genC12(kind string) func(r *core.Rng) any {
 				cc.Draws = append(cc.Draws, d.c14Draw)
 			}
 			if !c14CrossesTopLeft(cc) {
+				c12SVGOptions(c, r)
 				return c
 			}
 		}
@@ -638,7 +654,23 @@ func subsToPolys(subs []geom.Sub, eps float64, closeOpen bool, tr func(Pt) Pt) [
 	return out
 }
 
-func readSVG(data []byte, eps float64) ([]c12Prim, error) {
+func readSVG(data []byte, eps float64, units string, gz bool) ([]c12Prim, error) {
+	if isGz := len(data) > 2 && data[0] == 0x1f && data[1] == 0x8b; isGz != gz {
+		return nil, fmt.Errorf("compression requested %v, output is gzip: %v", gz, isGz)
+	} else if gz {
+		zr, err := gzip.NewReader(bytes.NewReader(data))
+		if err != nil {
+			return nil, fmt.Errorf("gzip: %v", err)
+		}
+		plain, err := io.ReadAll(zr)
+		if err != nil {
+			return nil, fmt.Errorf("gzip: %v", err)
+		}
+		data = plain
+	}
+	if units == "" {
+		units = "mm"
+	}
 	dec := xml.NewDecoder(bytes.NewReader(data))
 	var prims []c12Prim
 	H := 0.0
@@ -670,10 +702,12 @@ func readSVG(data []byte, eps float64) ([]c12Prim, error) {
 			}
 			vw, _ := strconv.ParseFloat(vb[2], 64)
 			vh, _ := strconv.ParseFloat(vb[3], 64)
-			w, e1 := strconv.ParseFloat(strings.TrimSuffix(attr["width"], "mm"), 64)
-			h, e2 := strconv.ParseFloat(strings.TrimSuffix(attr["height"], "mm"), 64)
-			if e1 != nil || e2 != nil || !strings.HasSuffix(attr["width"], "mm") {
-				return nil, fmt.Errorf("svg width/height %q %q are not millimetres", attr["width"], attr["height"])
+			// the size is the canvas size in the requested unit (the option relabels the unit; one user
+			// unit of the viewBox is one such unit)
+			w, e1 := strconv.ParseFloat(strings.TrimSuffix(attr["width"], units), 64)
+			h, e2 := strconv.ParseFloat(strings.TrimSuffix(attr["height"], units), 64)
+			if e1 != nil || e2 != nil || !strings.HasSuffix(attr["width"], units) || !strings.HasSuffix(attr["height"], units) {
+				return nil, fmt.Errorf("svg width/height %q %q are not in %s", attr["width"], attr["height"], units)
 			}
 			// user units -> mm
 			scaleX, scaleY = w/vw, h/vh
@@ -1228,7 +1262,16 @@ func c12Check(ci any, o *core.Obs) {
 		return
 	}
 	if !o.Call("svg renderer", func() {
-		r := svg.New(&bSVG, cv.W, cv.H, nil)
+		var opts *svg.Options
+		if c.SVGComp != 0 || c.SVGUnits != "" {
+			oo := svg.DefaultOptions
+			oo.Compression = c.SVGComp
+			if c.SVGUnits != "" {
+				oo.SizeUnits = c.SVGUnits
+			}
+			opts = &oo
+		}
+		r := svg.New(&bSVG, cv.W, cv.H, opts)
 		cv.RenderTo(r)
 		r.Close()
 	}) {
@@ -1264,7 +1307,7 @@ func c12Check(ci any, o *core.Obs) {
 		prims []c12Prim
 	}
 	var backs []backend
-	if p, err := readSVG(bSVG.Bytes(), eps); err != nil {
+	if p, err := readSVG(bSVG.Bytes(), eps, c.SVGUnits, c.SVGComp != 0); err != nil {
 		o.Fail("svg-unreadable", "the SVG output cannot be interpreted: %v; %s", err, c12Str(c))
 		return
 	} else {
